@@ -51,7 +51,7 @@ impl Property for C10 {
         "C10"
     }
     fn rule(&self) -> &'static str {
-        "(a) case = any tree with a free declaration layout (namespaced names with no, some, shadowed or default-only bindings, no-namespace elements under a default namespace) and a start node; to_string must be Err or produce text that an independent tokenizer + Namespaces resolver reads back with exactly the tree's element and attribute expanded names in document order. (b) case = repair history: a tree is disturbed by moving / cloning subtrees away from their declarations, removing declarations and adding names in fresh namespaces, then create_missing_prefixes(document | fragment | element) is called, up to 6 rounds; after every call to_string must succeed, reparse deep_equal, leave names/attributes/content unchanged, keep every earlier declaration with its URI, and pass check (a). Non-trivial = (a) a namespaced name without usable binding or a no-namespace element under a default namespace; (b) >= 2 rounds that each had something to repair. Distinct by hash of the tree / history."
+        "(a) case = any tree with a free declaration layout (namespaced names with no, some, shadowed or default-only bindings, no-namespace elements under a default namespace) and a start node; to_string must be Err or produce text that an independent tokenizer + Namespaces resolver reads back with exactly the tree's element and attribute expanded names in document order. (b) case = repair history: a tree is disturbed by moving / cloning subtrees away from their declarations, removing declarations and adding names in fresh namespaces, then create_missing_prefixes(document | fragment | element) is called, up to 6 rounds; after every call to_string must succeed, reparse deep_equal, leave names/attributes/content unchanged, keep every earlier declaration with its URI, and pass check (a). Plans *-xml-rebound additionally bind the prefix xml to another namespace on some elements (no output may rely on such a declaration). Non-trivial = (a) a namespaced name without usable binding or a no-namespace element under a default namespace; (b) >= 2 rounds that each had something to repair. Distinct by hash of the tree / history."
     }
     fn plans(&self, tier: Tier) -> Vec<Plan> {
         let mk = |name: &'static str, cases, variant| Plan {
@@ -60,8 +60,20 @@ impl Property for C10 {
             knobs: Knobs { max_nodes: 24, max_ops: 6, variant, ..Default::default() },
         };
         match tier {
-            Tier::Quick => vec![mk("names", 250_000, 0), mk("repair", 100_000, 1), mk("names-odd", 100_000, 2)],
-            Tier::Thorough => vec![mk("names", 1_000_000, 0), mk("repair", 400_000, 1), mk("names-odd", 600_000, 2)],
+            Tier::Quick => vec![
+                mk("names", 250_000, 0),
+                mk("repair", 100_000, 1),
+                mk("names-odd", 100_000, 2),
+                mk("names-xml-rebound", 60_000, 3),
+                mk("repair-xml-rebound", 40_000, 4),
+            ],
+            Tier::Thorough => vec![
+                mk("names", 1_000_000, 0),
+                mk("repair", 400_000, 1),
+                mk("names-odd", 600_000, 2),
+                mk("names-xml-rebound", 300_000, 3),
+                mk("repair-xml-rebound", 200_000, 4),
+            ],
         }
     }
 
@@ -77,7 +89,7 @@ impl Property for C10 {
             1 => gen::gen_fragment(src, &o),
             _ => gen::gen_element_tree(src, &o),
         };
-        if ctx.knobs.variant == 2 {
+        if ctx.knobs.variant == 2 || ctx.knobs.variant == 3 {
             // plan names-odd: namespace names that need escaping where they are written (double quote,
             // apostrophe, TAB, LF, '<', '&'), and explicit declarations of the xml prefix
             const ODD: &[&str] = &["urn:q\"t'\tz", "urn:l\nf&<g>", "urn:s p", "http://x/?a=1&b=\"2\""];
@@ -130,8 +142,39 @@ impl Property for C10 {
             }
             declare_xml(&mut doc, src);
         }
+        if ctx.knobs.variant >= 3 {
+            // plans *-xml-rebound: the prefix xml declared as something else than the XML namespace
+            // (Xot::set_namespace and the parser both allow it). XML cannot spell that, so the output
+            // must not rely on such a declaration: a name written xml:… means the XML namespace to
+            // every reader that follows Namespaces in XML
+            fn rebind_xml(n: &mut ANode, src: &mut Src, top: bool) {
+                if let ANode::Element(e) = n {
+                    if src.ratio(1, if top { 2 } else { 6 }) {
+                        let u = ["urn:a", "urn:b", "urn:c", "urn:x"][src.choice(4)];
+                        e.decls.retain(|(p, _)| p != "xml");
+                        let at = src.choice(e.decls.len() + 1);
+                        e.decls.insert(at, ("xml".to_string(), u.to_string()));
+                    }
+                }
+                if let Some(ch) = n.children_mut() {
+                    for c in ch.iter_mut() {
+                        rebind_xml(c, src, false);
+                    }
+                }
+            }
+            let is_doc = matches!(doc, ANode::Document(_));
+            if is_doc {
+                if let Some(ch) = doc.children_mut() {
+                    for c in ch.iter_mut() {
+                        rebind_xml(c, src, true);
+                    }
+                }
+            } else {
+                rebind_xml(&mut doc, src, true);
+            }
+        }
         let mut xot = Xot::new();
-        if ctx.knobs.variant == 0 || ctx.knobs.variant == 2 {
+        if ctx.knobs.variant == 0 || ctx.knobs.variant == 2 || ctx.knobs.variant == 3 {
             let mut hs = vec![];
             let root = match bridge::build(&mut xot, &doc, &mut hs) {
                 Ok(r) => r,
